@@ -166,18 +166,27 @@ def _rule_builtin_args(prog, chk, R):
     ev = R.ev_method('eval')
     g = prog.cfg(ev)
     subs = []
-    for n in SX.walk(ev.body, into_lambdas=False):
-        if n['k'] == 'index' and SX.is_node(n['base']) and n['base'].get('k') == 'ref' and n['base'].get('t', '').startswith('std::vector<bloch::runtime::Value')                 and SX.is_node(n['i']) and n['i']['k'] == 'int':
+    for n in SX.walk(ev.body, into_lambdas=True):
+        if n['k'] == 'index' and SX.is_node(n['base']) and n['base'].get('k') == 'ref' and n['base'].get('t', '').startswith('std::vector<bloch::runtime::Value'):
             subs.append(n)
     # only those in the built-in gate branch: guarded by a lookup in the builtInGates table
     def in_builtin(node):
         return any('builtInGates' in SX.show(ce) for ce, pol, _ in g.guards(node))
+
+    def node_incl_lambdas(n):
+        x = _node_of(g, n)
+        if x is not None:
+            return x
+        for cn in g.nodes:
+            if cn.kind in ('assign', 'call', 'decl') and SX.is_node(cn.e) and any(y is n for y in SX.walk(cn.e, into_lambdas=True)):
+                return cn
+        return None
     sites = []
     for n in subs:
-        node = _node_of(g, n)
+        node = node_incl_lambdas(n)
         if node is not None and in_builtin(node):
             sites.append((n, node))
-    chk.count('constant subscripts of the argument vector in the built-in dispatch', len(sites), 8)
+    chk.count('subscripts of the argument vector in the built-in dispatch', len(sites), 1)
     # premises on the analyser side
     analyse = prog.fn('SemanticAnalyser::analyse')
     ga = prog.cfg(analyse)
@@ -204,17 +213,19 @@ def _rule_builtin_args(prog, chk, R):
                 if any('size()' in SX.show(ce) and ('ParamCount' in SX.show(ce) or 'expected' in SX.show(ce).lower() or 'param' in SX.show(ce).lower()) for ce, pol, _ in gv.guards(t)):
                     arity = True
     for n, node in sites:
-        k = n['i']['v']
+        ki = SX.strip(n['i'])
+        k = ki['v'] if SX.is_node(ki) and ki.get('k') == 'int' else None
         sized = False
-        for ce, pol, _ in g.guards(node):
-            from ..kdiv import cmp_with_const
-            r = cmp_with_const(ce, SX.show(n['base']) + '.size()')
-            if r and pol and ((r[0] == '>' and r[1] >= k) or (r[0] == '>=' and r[1] >= k + 1) or (r[0] == '==' and r[1] >= k + 1)):
-                sized = True
+        if k is not None:
+            for ce, pol, _ in g.guards(node):
+                from ..kdiv import cmp_with_const
+                r = cmp_with_const(ce, SX.show(n['base']) + '.size()')
+                if r and pol and ((r[0] == '>' and r[1] >= k) or (r[0] == '>=' and r[1] >= k + 1) or (r[0] == '==' and r[1] >= k + 1)):
+                    sized = True
         ok = sized or (reserved and arity)
         chk.ob('R12.6', ev, n.get('ln', ev.ln), ok,
-               'args[%d] in the built-in gate dispatch: %s' % (k, 'size guard' if sized else ('analyser reserves gate names (%s) and checks call arity (%s)' % (reserved, arity))),
-               key='builtin-arg:%d' % k, nontrivial=False)
+               'args[%s] in the built-in gate dispatch: %s' % (k if k is not None else SX.show(ki)[:20], 'size guard' if sized else ('analyser reserves gate names (%s) and checks call arity (%s)' % (reserved, arity))),
+               key='builtin-arg:%s' % (k if k is not None else 'var'), nontrivial=False)
     chk.ob('R12.6', analyse, analyse.ln, reserved or all(False for _ in []) and False or reserved,
            'the predeclaration loop must reject a user function whose name is a built-in gate (the evaluator dispatches gates by name before user functions)',
            key='gate-names-reserved')
@@ -279,6 +290,7 @@ SLOT_EXCEPTIONS = {
 def _rule_slot_overwrite(prog, chk, R):
     evfns = [f for f in prog.functions if f.body and f.file.endswith('runtime_evaluator.cpp')]
     helpers = set()
+    candidates = []
     for f in evfns:
         if f.kind == 'lambda':
             continue
@@ -292,6 +304,23 @@ def _rule_slot_overwrite(prog, chk, R):
             stores = [n for n, l, r, o in g.writes() if o == '=' and SX.is_node(SX.strip(l)) and SX.strip(l).get('id') == p['id']]
             if moves and stores and all(g.must_precede(moves, s) for s in stores):
                 helpers.add(f.key)
+            elif stores:
+                # a store-through-reference helper that is handed object slots must move the old value out first
+                pidx = [i for i, q in enumerate(f.params) if q['id'] == p['id']][0]
+                slot_callers = []
+                for cf, call in prog.callers(f):
+                    a = SX.real_args(call)
+                    if pidx < len(a):
+                        l = SX.strip(a[pidx])
+                        if SX.is_node(l) and l.get('k') == 'index':
+                            root, names = SX.member_chain(l)
+                            if names and names[-1] in ('fields', 'staticStorage'):
+                                slot_callers.append(cf.short)
+                if slot_callers:
+                    candidates.append(f)
+                    chk.ob('R12.8', f, f.ln, False,
+                           '%s overwrites the slot it is given (object fields / static storage, from %s) without first moving the old value out: releasing the last '
+                           'reference runs a destructor that can read the half-written slot' % (f.short, sorted(set(slot_callers))[:3]), key='slot-helper:' + f.short)
     n = 0
     for f in evfns:
         if f.key in helpers:
@@ -318,7 +347,7 @@ def _rule_slot_overwrite(prog, chk, R):
                        SX.show(l)[:50], SX.show(r)[:20], ('; exception: ' + exc) if exc else '; use the move-out-first helper'), key='slot:%s:%s' % (f.short, cont))
     calls = sum(1 for f in evfns for x in SX.walk(f.body, into_lambdas=False) if x['k'] == 'call' and (x.get('callee', '') + x.get('sig', '')) in helpers)
     chk.extra['slot_store_helper_calls'] = calls
-    chk.count('move-out-first slot helpers', len(helpers), 1)
+    chk.count('slot store helpers', len(helpers) + len(candidates), 1)
 
 
 def _arg0(n):
